@@ -30,6 +30,7 @@ RULE = (
     "parses. Non-trivial = >= 1 extra attribute and a payload length that is not a multiple of 16."
     ' Nonce lengths 1, 8, 12, 13, 16 and 32 bytes.'
 )
+RULE += ' Round 10: the same rejected decrypt() call twice in a row on one object.'
 ASSUMPTIONS = [
     "bytes the format never authenticates are outside the tamper domain: header pad and size field, the two reserved bytes of each "
     "attribute, zero fill after the attribute terminator, AEAD footer magic/padding/size fields",
